@@ -475,6 +475,12 @@ class StmtMixin(object):
               for o in self.inline_call(s1, cx, fn, [base, v], {}, t):
                 yield o[0], (o[1] if isinstance(o[1], Exc) else None)
               continue
+          from .access import DROP_ROOTS
+          if t.attr.lstrip('_') in tuple(r.lstrip('_') for r in DROP_ROOTS) or t.attr in ('endpoint',) and False:
+            # storing the (dropped) logger / metrics object: part of what the extraction drops
+            self.dropped.add('%s.%s = ...' % (cls, t.attr))
+            yield s1, None
+            continue
           raise Unsupported('field %s.%s not declared (line %d)' % (cls, t.attr, t.lineno))
         if base.ty.opt:
           gen = self.oblige_or_raise(s1, cx, base.t != 0, 'AttributeError', t, 'None.%s = ...' % t.attr)
